@@ -496,5 +496,106 @@ class CursorAnalysis:
                 continue
             path = f.find_path(p, {p}, avoid=adv)
             if path is not None:
+                path = self._flag_feasible_cycle(p, adv)
+            if path is not None:
                 return path
+        return None
+
+    def _flag_feasible_cycle(self, p, adv):
+        """a cycle through p that avoids `adv` and is consistent with the constants assigned to bool locals along it
+        (`for(bool more = true; more;) { ... else more = false; }` - the iteration that clears the flag is the last one)"""
+        from collections import deque
+        from . import fin
+        f = self.f
+        bools = set()
+        for n in f.nodes:
+            if n["k"] == "DeclStmt":
+                for d in n["decls"]:
+                    if (d.get("t") or "").replace("const ", "").strip() == "bool":
+                        bools.add(d["n"])
+        if not bools:
+            return f.find_path(p, {p}, avoid=adv)
+
+        def step_flags(fl, pos):
+            b, i = pos
+            blk = f.blocks[b]
+            if i >= len(blk["el"]) or not isinstance(blk["el"][i], int):
+                return fl
+            n = f.nodes[blk["el"][i]]
+            upd = []
+            if n["k"] == "DeclStmt":
+                upd = [(d["n"], d.get("init")) for d in n["decls"] if d["n"] in bools]
+            elif n["k"] == "BinaryOperator" and n.get("op") == "=":
+                l = f.nodes[f.strip(n["c"][0])]
+                if l["k"] == "DeclRefExpr" and l["ref"]["n"] in bools:
+                    upd = [(l["ref"]["n"], n["c"][1])]
+            elif n["k"] == "CompoundAssignOperator":
+                l = f.nodes[f.strip(n["c"][0])]
+                if l["k"] == "DeclRefExpr" and l["ref"]["n"] in bools:
+                    upd = [(l["ref"]["n"], None)]
+            if not upd:
+                return fl
+            d_ = dict(fl)
+            for nm, rhs in upd:
+                v = fin.eval_expr(f, rhs, {}) if rhs is not None else None
+                if v is None:
+                    d_.pop(nm, None)
+                else:
+                    d_[nm] = bool(v)
+            return frozenset(d_.items())
+        start = (p, frozenset())
+        prev = {}
+        dq = deque()
+        for s_ in f.succs_pos(p):
+            pass
+        dq.append(start)
+        seen = {start}
+        first = True
+        while dq:
+            pos, fl = dq.popleft()
+            if pos == p and not first:
+                out = [pos]
+                cur = (pos, fl)
+                for _ in range(100000):
+                    if cur not in prev:
+                        break
+                    cur = prev[cur]
+                    out.append(cur[0])
+                    if cur == start:
+                        break
+                return list(reversed(out))
+            nfl = step_flags(fl, pos) if (first or pos != p) else fl
+            first = False
+            b, i = pos
+            blk = f.blocks[b]
+            at_end = i >= len(blk["el"])
+            for nx in f.succs_pos(pos):
+                if nx in adv:
+                    continue
+                efl = nfl
+                if nx[0] != b or at_end:
+                    c = blk.get("cond")
+                    if c is not None and len(blk["succ"]) == 2 and blk.get("tk") != "SwitchStmt" and blk["succ"][0] != blk["succ"][1] and nx[0] in blk["succ"]:
+                        truth = blk["succ"][0] == nx[0]
+                        d_ = dict(efl)
+                        ok = True
+                        for an, tr in q.cond_atoms(f, c, truth):
+                            nn = f.nodes[f.strip(an)]
+                            if nn["k"] == "DeclRefExpr" and nn["ref"]["n"] in bools:
+                                if nn["ref"]["n"] in d_ and d_[nn["ref"]["n"]] != tr:
+                                    ok = False
+                                d_[nn["ref"]["n"]] = tr
+                        if not ok:
+                            continue
+                        efl = frozenset(d_.items())
+                st = (nx, efl)
+                if st in seen and not (nx == p):
+                    continue
+                if st not in seen:
+                    prev[st] = (pos, fl)
+                    seen.add(st)
+                    dq.append(st)
+                elif nx == p:
+                    prev.setdefault(st, (pos, fl))
+                    dq.append(st)
         return None
